@@ -127,11 +127,13 @@ def oracle_table(agg, starts, ends, m):
     return out
 
 
-def check_table(rec, otab, scores, maxi, starts, ends, m, name, inp, where):
+def check_table(rec, agg, otab, scores, maxi, starts, ends, m, name, inp, where):
     """Statement, sentence 1 (tie-robust).  Returns the per-candidate (score, inner interval) to hand to the greedy reference:
     the reported ones where they satisfy the statement, the oracle's where the reported inner interval is wrong and the
-    argmax is unique; None entries for candidates without admissible inner interval."""
+    argmax is unique; None entries for candidates without admissible inner interval.
+    References: the direct definition, then (built-in scorers) a fresh scorer instance; flagged when both disagree."""
     sel_scores, sel_inner, usable = [], [], True
+    alt = getattr(agg, "alt", None)
     for i, (s, e) in enumerate(zip(starts, ends)):
         vals = otab[i]
         if vals is None:
@@ -143,14 +145,23 @@ def check_table(rec, otab, scores, maxi, starts, ends, m, name, inp, where):
             sel_scores.append(None)
             sel_inner.append(None)
             continue
-        best = max(vals.values())
-        arg = [ab for ab, v in vals.items() if close(v, best)]
-        if not close(float(scores[i]), best):
+        rep = (int(maxi[i][0]), int(maxi[i][1])) if float(maxi[i][0]).is_integer() and float(maxi[i][1]).is_integer() else None
+        for second in (False, True):
+            best = max(vals.values())
+            arg = [ab for ab, v in vals.items() if close(v, best)]
+            score_ok = close(float(scores[i]), best)
+            rep_ok = rep in vals and close(vals[rep], best)
+            if (score_ok and rep_ok) or second or alt is None:
+                break
+            vals2 = {ab: alt(s, ab[0], ab[1], e) for ab in vals}
+            if any(v is None for v in vals2.values()):
+                break
+            vals = vals2
+        if not score_ok:
             rec.violation(f"run_circular_binseg:score:{name}",
                           f"{where}: candidate [{s},{e}) reports score {float(scores[i])!r}, the maximum of the column-summed local anomaly score over its "
                           f"{len(vals)} admissible inner intervals is {best!r}", "C09.table.score", inp)
-        rep = (int(maxi[i][0]), int(maxi[i][1])) if float(maxi[i][0]).is_integer() and float(maxi[i][1]).is_integer() else None
-        if rep in vals and close(vals[rep], best):
+        if rep_ok:
             sel_inner.append(rep)
         else:
             rec.violation(KEY_COLUMNS, f"{where}: candidate [{s},{e}) reports the inner interval ({maxi[i][0]}, {maxi[i][1]}) in the argmax columns, "
@@ -215,7 +226,7 @@ def check_run(rec, inp):
     if not starts:
         return [False]
     otab = oracle_table(agg, starts, ends, m)
-    sel_scores, sel_inner, usable = check_table(rec, otab, scores, maxi, starts, ends, m, name, inp, "run_circular_binseg")
+    sel_scores, sel_inner, usable = check_table(rec, agg, otab, scores, maxi, starts, ends, m, name, inp, "run_circular_binseg")
     has_empty = any(v is not None and not v for v in otab)
     ths = inp.get("thresholds") or _thresholds_from(sel_scores, inp.get("n_thresholds", "all"))
     results, nontrivial = [], []
@@ -276,7 +287,7 @@ def check_detector(rec, inp):
         return info
     otab = oracle_table(agg, starts, ends, m)
     maxi = np.column_stack((tb["argmax_anomaly_start"].to_numpy(), tb["argmax_anomaly_end"].to_numpy()))
-    sel_scores, sel_inner, usable = check_table(rec, otab, tb["score"].to_numpy(), maxi, starts, ends, m, name, inp, "CircularBinarySegmentation.scores")
+    sel_scores, sel_inner, usable = check_table(rec, agg, otab, tb["score"].to_numpy(), maxi, starts, ends, m, name, inp, "CircularBinarySegmentation.scores")
     info["scores"] = sel_scores
     ref = []
     if usable:
